@@ -10,6 +10,24 @@ theorem floor_ge (n : Int) : tls12 ≤ floor n ∧ n ≤ floor n := by
   simp only [floorCmp, floorConst, floorThen, floorElse, Cmp.eval, FloorArm.eval, tls12]
   by_cases h : n < 771 <;> simp [h] <;> omega
 
+/-- the effective minimum of a fresh context: always set, TLS 1.2 … TLS 1.3, and the operator's minimum whenever that is
+a TLS version the library knows — for EVERY integer `n` -/
+theorem applyFloorMin_ok (n : Int) :
+    ∃ m, applyFloorMin none n = some m ∧ tls12 ≤ m ∧ m ≤ 772 ∧ (n ≤ 772 → n ≤ m) := by
+  unfold applyFloorMin libSetMin floor
+  simp only [floorCmp, floorConst, floorThen, floorElse, floorReadback, Cmp.eval, FloorArm.eval, tls12]
+  by_cases h1 : n < 771
+  · refine ⟨771, ?_, by omega, by omega, by omega⟩
+    simp [h1]
+  · by_cases h2 : n ≤ 772
+    · refine ⟨n, ?_, by omega, by omega, by omega⟩
+      have h3 : ¬ n = 0 := by omega
+      have h4 : (768 : Int) ≤ n := by omega
+      simp [h1, h2, h3, h4]
+    · refine ⟨771, ?_, by omega, by omega, by omega⟩
+      have h3 : ¬ n = 0 := by omega
+      simp [h1, h2, h3]
+
 /-! ### closed form of `runSteps`: a block refuses iff some enabled step refuses; otherwise every field is the last enabled write -/
 
 def stepRefuses (e : Env) (f : Files) (s : Step) : Bool :=
@@ -27,7 +45,7 @@ def verifyOf (e : Env) : List Step → List VFlag → List VFlag
 
 def minOf (e : Env) : List Step → Option Int → Option Int
   | [], acc => acc
-  | s :: ss, acc => minOf e ss (match s.act with | .applyFloor => if s.guard.eval e then some (floor e.cfg.minVersion) else acc | _ => acc)
+  | s :: ss, acc => minOf e ss (match s.act with | .applyFloor => if s.guard.eval e then applyFloorMin acc e.cfg.minVersion else acc | _ => acc)
 
 def trustOf (e : Env) : List Step → Trust → Trust
   | [], acc => acc
@@ -94,7 +112,7 @@ theorem buildCtx_eq (blk : CtxBlock) (role : Mode) (cfg : Cfg) (f : Files) :
 theorem server_built (cfg : Cfg) (f : Files) (c : Ctx) (h : buildCtx serverCtx .server cfg f = .built c) :
     c.role = .server ∧
     c.verify = (if cfg.verifyPeer then [.peer, .failIfNoPeerCert] else []) ∧
-    c.minProto = some (floor cfg.minVersion) ∧
+    c.minProto = applyFloorMin none cfg.minVersion ∧
     c.trust = (if cfg.verifyPeer && (cfg.caFileSet || cfg.caPathSet) then .locations cfg.caFileSet cfg.caPathSet else .none) ∧
     c.certLoaded = (cfg.certFileSet && cfg.keyFileSet) ∧ c.keyLoaded = (cfg.certFileSet && cfg.keyFileSet) := by
   rw [buildCtx_eq] at h
@@ -111,7 +129,7 @@ theorem server_built (cfg : Cfg) (f : Files) (c : Ctx) (h : buildCtx serverCtx .
 theorem client_built (cfg : Cfg) (f : Files) (c : Ctx) (h : buildCtx clientCtx .client cfg f = .built c) :
     c.role = .client ∧
     c.verify = (if cfg.verifyPeer then [.peer] else []) ∧
-    c.minProto = some (floor cfg.minVersion) ∧
+    c.minProto = applyFloorMin none cfg.minVersion ∧
     c.trust = (if cfg.verifyPeer then (if cfg.caFileSet || cfg.caPathSet then .locations cfg.caFileSet cfg.caPathSet else .default) else .none) := by
   rw [buildCtx_eq] at h
   split at h
